@@ -347,6 +347,30 @@ pub fn run_coord(args: &Args) {
     let mut sh = Shards::new(args.get("out").expect("--out"), args.num("shards", 1) as usize);
     let full = args.num("full-offsets", 0) == 1;
     let near = args.num("near", 9) as i32;
+    // the named constants: identifier, index, text form, position in ALL
+    {
+        macro_rules! named {
+            ($ty:ident: $($n:ident)*) => {
+                vec![$((stringify!($n).to_string(), $ty::$n as usize, format!("{}", $ty::$n), $ty::ALL.iter().position(|&x| x == $ty::$n).map_or(-1, |p| p as i64))),*]
+            };
+        }
+        let sq = named!(Square:
+            A1 B1 C1 D1 E1 F1 G1 H1 A2 B2 C2 D2 E2 F2 G2 H2 A3 B3 C3 D3 E3 F3 G3 H3 A4 B4 C4 D4 E4 F4 G4 H4
+            A5 B5 C5 D5 E5 F5 G5 H5 A6 B6 C6 D6 E6 F6 G6 H6 A7 B7 C7 D7 E7 F7 G7 H7 A8 B8 C8 D8 E8 F8 G8 H8);
+        let fl = named!(File: A B C D E F G H);
+        let rk = named!(Rank: First Second Third Fourth Fifth Sixth Seventh Eighth);
+        let pc = named!(Piece: Pawn Knight Bishop Rook Queen King);
+        let cl = named!(Color: White Black);
+        let js = |v: &Vec<(String, usize, String, i64)>| v.iter().map(|(n, i, t, p)| format!("[{},{},{},{}]", jcps(n), i, jcps(t), p)).collect::<Vec<_>>().join(",");
+        sh.next_history();
+        sh.emit(
+            "names",
+            &format!(
+                "\"square\":[{}],\"file\":[{}],\"rank\":[{}],\"piece\":[{}],\"color\":[{}],\"nums\":[{},{},{},{},{}]",
+                js(&sq), js(&fl), js(&rk), js(&pc), js(&cl), Square::NUM, File::NUM, Rank::NUM, Piece::NUM, Color::NUM
+            ),
+        );
+    }
     // coordinate functions of every square / file / rank
     for &s in &Square::ALL {
         sh.next_history();
